@@ -333,7 +333,12 @@ fn c15_injected_contradiction_is_a_conflict() {
                     options.push((v, "mapping vs fixed array", T::Fix(f1, 3)));
                     options.push((v, "mapping vs sized word", T::Word(Some([8usize, 160, 256][rng.below(3) as usize]), [WordUse::UnsignedNumeric, WordUse::Address, WordUse::Bytes][rng.below(3) as usize])));
                 }
-                G::Dyn(..) => options.push((v, "dynamic array vs mapping", T::Map(f1, f2))),
+                G::Dyn(..) => {
+                    options.push((v, "dynamic array vs mapping", T::Map(f1, f2)));
+                    // the one word a dynamic array can not absorb: a signed one (of known or unknown width)
+                    options.push((v, "dynamic array vs signed word", T::Word(None, WordUse::SignedNumeric)));
+                    options.push((v, "dynamic array vs signed word", T::Word(Some(64), WordUse::SignedNumeric)));
+                }
                 G::Fix(_, len) => { options.push((v, "fixed array vs mapping", T::Map(f1, f2))); options.push((v, "fixed arrays of two lengths", T::Fix(f1, len + 1))); }
                 _ => {}
             }
